@@ -66,17 +66,25 @@ Record env := mkenv { app : bool; running : bool; lid : nat; lclosed : bool;
                       ctx : bool  (* which session the rig created the proxy in; no step reads it *) }.
 Record chain := mkch { nextf : nat; lastf : option nat; donef : list nat;
                        waitq : list sec; active : option nat; started : list nat }.
-Record st := mkst { px : proxy; en : env; ch : chain; out : list ev; lost : list text }.
+(* cursor position requests (Renderer._waiting_for_cpr_futures, cpr_support):
+   cprq = outstanding requests, cprsup = a report has been seen (SUPPORTED),
+   cprwait = the head of waitq has passed its predecessor and sits in
+   renderer.wait_for_cpr_responses() (rendering is NOT yet disabled),
+   cpron = app.output.responds_to_cpr (configuration of the case) *)
+Record cpr := mkcp { cprq : nat; cprsup : bool; cprwait : bool; cpron : bool }.
+Record st := mkst { px : proxy; en : env; ch : chain; out : list ev; lost : list text; cp : cpr }.
 
 Inductive label :=
 | LW (t : Z) (d : text) | LFlush (t : Z) | LClose
 | LFGet | LFNowait | LFChoose | LFDeliver
 | LAppStart | LAppExit | LAppStop | LLoopClose | LLoopStep | LRender
-| LExtBegin | LExtEnd | LWake (i : nat).
+| LExtBegin | LExtEnd | LWake (i : nat)
+| LCprAnswer | LCprTimeout.
 
-Definition init (c : bool) : st :=
+Definition init2 (c r : bool) : st :=
   mkst (mkpx [] [] FIdle []) (mkenv false false O false [] c)
-       (mkch O None [] [] None []) [] [].
+       (mkch O None [] [] None []) [] [] (mkcp O false false r).
+Definition init (c : bool) : st := init2 c false.
 
 (* ---- writers: StdoutProxy._write / _flush under self._lock ---- *)
 Definition do_write (p : proxy) (d : text) : proxy :=
@@ -137,10 +145,24 @@ Definition start_sec (run : bool) (s : sec) (c : chain) (o : list ev) : chain * 
        o ++ [EErase])
   end.
 
-Definition submit (run : bool) (p : pay) (c : chain) (o : list ev) : chain * list ev :=
+(* in_terminal up to the point where the section may enter: chained behind
+   its predecessor; [hold] = outstanding CPR requests, the section then waits in
+   wait_for_cpr_responses() and stays at the head of waitq *)
+Definition cpr_pending (k : cpr) : bool := cpron k && negb (Nat.eqb (cprq k) 0).
+(* Application._request_absolute_cursor_position -> Renderer.request_absolute_cursor_position
+   (the NOT_SUPPORTED timer of 2 s is outside the model) *)
+Definition request (run : bool) (k : cpr) : cpr :=
+  if cpron k && run && (cprsup k || Nat.eqb (cprq k) 0)
+  then mkcp (S (cprq k)) (cprsup k) (cprwait k) (cpron k) else k.
+Definition set_wait (k : cpr) (w : bool) : cpr := mkcp (cprq k) (cprsup k) w (cpron k).
+(* the redraw bracket at the end of a write section asks for the cursor position again *)
+Definition after_start (run : bool) (x : sec) (k : cpr) : cpr :=
+  match s_pay x with PWrite _ => request run k | PExt => k end.
+
+Definition submit (run hold : bool) (p : pay) (c : chain) (o : list ev) : chain * list ev :=
   let s := mksec (lastf c) (nextf c) p in
   let c1 := mkch (S (nextf c)) (Some (nextf c)) (donef c) (waitq c) (active c) (started c) in
-  if fdone c (lastf c) then start_sec run s c1 o
+  if fdone c (lastf c) && negb hold then start_sec run s c1 o
   else (mkch (nextf c1) (lastf c1) (donef c1) (waitq c1 ++ [s]) (active c1) (started c1), o).
 
 Fixpoint remove_nth {T} (i : nat) (l : list T) : list T :=
@@ -150,54 +172,74 @@ Fixpoint remove_nth {T} (i : nat) (l : list T) : list T :=
   | S j, x :: r => x :: remove_nth j r
   end.
 
+Definition submit_cpr (run : bool) (p : pay) (c : chain) (k : cpr) : cpr :=
+  if fdone c (lastf c)
+  then if cpr_pending k then set_wait k true
+       else after_start run (mksec (lastf c) (nextf c) p) k
+  else k.
+
+(* the section at the head of waitq leaves wait_for_cpr_responses() *)
+Definition resume (run : bool) (c : chain) (k : cpr) (o : list ev) : chain * cpr * list ev :=
+  match waitq c with
+  | x :: w =>
+      let c0 := mkch (nextf c) (lastf c) (donef c) w (active c) (started c) in
+      let (c', o') := start_sec run x c0 o in
+      (c', after_start run x (set_wait k false), o')
+  | [] => (c, set_wait k false, o)
+  end.
+
+(* Application.invalidate() -> _redraw(): renders only while running and no section is open *)
+Definition inval_render (run : bool) (c : chain) : list ev :=
+  if run && match active c with None => true | Some _ => false end then [ERender] else [].
+
 Definition set_fth (p : proxy) (f : fstate) (h : list text) : proxy := mkpx (buf p) (queue p) f h.
 Definition set_loopq (e : env) (q : list text) : env :=
   mkenv (app e) (running e) (lid e) (lclosed e) q (ctx e).
 
 Definition step (s : st) (l : label) : st :=
-  let p := px s in let e := en s in let c := ch s in
+  let p := px s in let e := en s in let c := ch s in let k := cp s in
   match l with
-  | LW _ d => mkst (do_write p d) e c (out s) (lost s)
-  | LFlush _ => mkst (do_flush p) e c (out s) (lost s)
-  | LClose => mkst (do_close p) e c (out s) (lost s)
-  | LFGet => mkst (do_fget p) e c (out s) (lost s)
-  | LFNowait => mkst (do_fnowait p) e c (out s) (lost s)
-  | LFChoose => mkst (do_fchoose p e) e c (out s) (lost s)
+  | LW _ d => mkst (do_write p d) e c (out s) (lost s) k
+  | LFlush _ => mkst (do_flush p) e c (out s) (lost s) k
+  | LClose => mkst (do_close p) e c (out s) (lost s) k
+  | LFGet => mkst (do_fget p) e c (out s) (lost s) k
+  | LFNowait => mkst (do_fnowait p) e c (out s) (lost s) k
+  | LFChoose => mkst (do_fchoose p e) e c (out s) (lost s) k
   | LFDeliver =>
       match fth p with
       | FChosen acc dn None =>
           (* no loop: write_and_flush() in the flush thread itself *)
           mkst (set_fth p (after_batch dn) (handed p ++ [acc])) e c
                (out s ++ [EWrite acc (running e) (match active c with Some _ => true | None => false end)])
-               (lost s)
-      | FChosen acc dn (Some k) =>
-          if Nat.eqb k (lid e) && negb (lclosed e)
+               (lost s) k
+      | FChosen acc dn (Some lk) =>
+          if Nat.eqb lk (lid e) && negb (lclosed e)
           then mkst (set_fth p (after_batch dn) (handed p ++ [acc])) (set_loopq e (loopq e ++ [acc])) c
-                    (out s) (lost s)
+                    (out s) (lost s) k
           else (* loop.call_soon_threadsafe on a closed loop raises RuntimeError, which is
                   caught: "there is no prompt anymore, write directly" *)
                mkst (set_fth p (after_batch dn) (handed p ++ [acc])) e c
                     (out s ++ [EWrite acc (running e) (match active c with Some _ => true | None => false end)])
-                    (lost s)
+                    (lost s) k
       | _ => s
       end
   | LAppStart =>
       if negb (app e) && negb (running e)
       then mkst p (mkenv true true (if lclosed e then S (lid e) else lid e) false (loopq e) (ctx e)) c
-                (out s ++ [ERender]) (lost s)
+                (out s ++ [ERender]) (lost s) (request true k)
       else s
   | LAppExit =>
       if app e && running e
       then mkst p (mkenv true false (lid e) (lclosed e) (loopq e) (ctx e)) c
-                (out s ++ match active c with None => [ERender] | Some _ => [] end) (lost s)
+                (out s ++ match active c with None => [ERender] | Some _ => [] end) (lost s) k
       else s
   | LAppStop =>
-      if app e && negb (running e) && fdone c (lastf c)
-      then mkst p (mkenv false false (lid e) (lclosed e) (loopq e) (ctx e)) c (out s) (lost s)
+      if app e && negb (running e) && fdone c (lastf c) && Nat.eqb (cprq k) 0
+      then mkst p (mkenv false false (lid e) (lclosed e) (loopq e) (ctx e)) c (out s) (lost s) k
       else s
   | LLoopClose =>
       if negb (app e) && negb (lclosed e)
-      then mkst p (mkenv false (running e) (lid e) true [] (ctx e)) c (out s) (lost s ++ loopq e)
+      then mkst p (mkenv false (running e) (lid e) true [] (ctx e)) c (out s) (lost s ++ loopq e) k
       else s
   | LLoopStep =>
       if lclosed e then s else
@@ -209,36 +251,59 @@ Definition step (s : st) (l : label) : st :=
              in_terminal: written directly only when there is no application, or it is
              no longer running AND no earlier section is in progress or waiting *)
           if app e && (running e || negb (fdone c (lastf c)))
-          then let (c', o') := submit (running e) (PWrite t) c (out s) in
-               mkst p (set_loopq e q) c' o' (lost s)
+          then let (c', o') := submit (running e) (cpr_pending k) (PWrite t) c (out s) in
+               mkst p (set_loopq e q) c' o' (lost s) (submit_cpr (running e) (PWrite t) c k)
           else mkst p (set_loopq e q) c
                     (out s ++ [EWrite t (running e) (match active c with Some _ => true | None => false end)])
-                    (lost s)
+                    (lost s) k
       end
   | LRender =>
       if app e && running e && match active c with None => true | Some _ => false end
-      then mkst p e c (out s ++ [ERender]) (lost s) else s
+      then mkst p e c (out s ++ [ERender]) (lost s) k else s
   | LExtBegin =>
       if app e && running e
-      then let (c', o') := submit (running e) PExt c (out s) in mkst p e c' o' (lost s)
+      then let (c', o') := submit (running e) (cpr_pending k) PExt c (out s) in
+           mkst p e c' o' (lost s) (submit_cpr (running e) PExt c k)
       else s
   | LExtEnd =>
       match active c with
       | Some own =>
           mkst p e (mkch (nextf c) (lastf c) (own :: donef c) (waitq c) None (started c))
-               (out s ++ redraw (running e)) (lost s)
+               (out s ++ redraw (running e)) (lost s) (request (running e) k)
       | None => s
       end
   | LWake i =>
       match nth_error (waitq c) i with
       | Some x =>
-          if fdone c (s_prev x)
-          then let c0 := mkch (nextf c) (lastf c) (donef c) (remove_nth i (waitq c)) (active c) (started c) in
-               let (c', o') := start_sec (running e) x c0 (out s) in
-               mkst p e c' o' (lost s)
+          if fdone c (s_prev x) && negb (cprwait k)
+          then if cpr_pending k
+               then (* predecessor done, now waiting for the cursor position reports *)
+                    mkst p e c (out s) (lost s) (set_wait k true)
+               else let c0 := mkch (nextf c) (lastf c) (donef c) (remove_nth i (waitq c)) (active c) (started c) in
+                    let (c', o') := start_sec (running e) x c0 (out s) in
+                    mkst p e c' o' (lost s) (after_start (running e) x k)
           else s
       | None => s
       end
+  | LCprAnswer =>
+      (* the terminal's report is read from the (attached) input: the oldest future is
+         resolved; the key binding's call invalidates the application, so a render
+         follows (after the resumed section, if any) unless a section is then open *)
+      if app e && cpron k && negb (Nat.eqb (cprq k) 0) && match active c with None => true | Some _ => false end
+      then let k1 := mkcp (Nat.pred (cprq k)) true (cprwait k) (cpron k) in
+           if cprwait k && Nat.eqb (cprq k1) 0
+           then let '(c', k', o') := resume (running e) c k1 (out s) in
+                mkst p e c' (o' ++ inval_render (running e) c') (lost s) k'
+           else mkst p e c (out s ++ inval_render (running e) c) (lost s) k1
+      else s
+  | LCprTimeout =>
+      (* wait_for_cpr_responses' own 1 s timeout: all outstanding futures are dropped *)
+      if negb (Nat.eqb (cprq k) 0) && (cprwait k || (app e && negb (running e)))
+      then let k1 := mkcp O (cprsup k) (cprwait k) (cpron k) in
+           if cprwait k
+           then let '(c', k', o') := resume (running e) c k1 (out s) in mkst p e c' o' (lost s) k'
+           else mkst p e c (out s) (lost s) k1
+      else s
   end.
 
 Definition run (s : st) (ls : list label) : st := fold_left step ls s.
@@ -253,13 +318,15 @@ Definition enabled (s : st) (l : label) : bool :=
   | LFDeliver => match fth p with FChosen _ _ _ => true | _ => false end
   | LAppStart => negb (app e) && negb (running e)
   | LAppExit => app e && running e
-  | LAppStop => app e && negb (running e) && fdone c (lastf c)
+  | LAppStop => app e && negb (running e) && fdone c (lastf c) && Nat.eqb (cprq (cp s)) 0
   | LLoopClose => negb (app e) && negb (lclosed e)
   | LLoopStep => negb (lclosed e) && match loopq e with [] => false | _ => true end
   | LRender => app e && running e && match active c with None => true | Some _ => false end
   | LExtBegin => app e && running e
   | LExtEnd => match active c with Some _ => true | None => false end
-  | LWake i => match nth_error (waitq c) i with Some x => fdone c (s_prev x) | None => false end
+  | LWake i => match nth_error (waitq c) i with Some x => fdone c (s_prev x) && negb (cprwait (cp s)) | None => false end
+  | LCprAnswer => app e && cpron (cp s) && negb (Nat.eqb (cprq (cp s)) 0) && match active c with None => true | Some _ => false end
+  | LCprTimeout => negb (Nat.eqb (cprq (cp s)) 0) && (cprwait (cp s) || (app e && negb (running e)))
   end.
 
 (* every label of the list is enabled when it is taken *)
@@ -345,7 +412,7 @@ Definition obs (s : st) : sx :=
   L [ sx_fst (fth (px s)); sx_str (buf (px s)); sx_list sx_item (queue (px s));
       sx_list sx_str (loopq (en s)); sx_bool (app (en s)); sx_bool (running (en s));
       sx_bool (negb (fdone (ch s) (lastf (ch s)))); sx_bool (match active (ch s) with Some _ => true | None => false end);
-      sx_nat (length (out s)) ].
+      sx_nat (length (out s)); sx_nat (cprq (cp s)); sx_bool (cprwait (cp s)) ].
 
 (* The lock as a resource: the only labels that touch the shared _buffer are
    LW / LFlush = the body of write()/flush() executed while holding _lock, so
@@ -380,6 +447,8 @@ Definition label_of_sx (x : sx) : option label :=
   | L [A 14] => Some LExtBegin
   | L [A 15] => Some LExtEnd
   | L [A 16; i] => match nat_of_sx i with Some n => Some (LWake n) | None => None end
+  | L [A 17] => Some LCprAnswer
+  | L [A 18] => Some LCprTimeout
   | _ => None
   end.
 
@@ -404,19 +473,28 @@ Fixpoint run_obs (s : st) (steps : list (label * bool)) (acc : list sx) : st * l
   end.
 
 (* case: (0 ctx steps) -> ((obs ...) final) ;  (1 ctx labels candidates) -> enabled flags *)
+(* configuration of a case: bit 0 = proxy created in the default session,
+   bit 1 = the output responds to cursor position requests *)
+Definition cfg_of_sx (x : sx) : option (bool * bool) :=
+  match x with
+  | A 0 => Some (false, false) | A 1 => Some (true, false)
+  | A 2 => Some (false, true) | A 3 => Some (true, true)
+  | _ => None
+  end.
+
 Definition run_C20 (x : sx) : sx :=
   match x with
   | L [A 0; c; L steps] =>
-      match as_bool c, map_opt step_of_sx steps with
-      | Some c', Some steps' =>
-          let (s, os) := run_obs (init c') steps' [] in L [L os; final_obs s]
+      match cfg_of_sx c, map_opt step_of_sx steps with
+      | Some (c', r), Some steps' =>
+          let (s, os) := run_obs (init2 c' r) steps' [] in L [L os; final_obs s]
       | _, _ => bad_case
       end
   | L [A 1; c; L ls; L cands] =>
-      match as_bool c, map_opt label_of_sx ls, map_opt label_of_sx cands with
-      | Some c', Some ls', Some cands' =>
-          let s := run (init c') ls' in
-          L [sx_bool (all_enabled (init c') ls'); sx_list (fun l => sx_bool (enabled s l)) cands']
+      match cfg_of_sx c, map_opt label_of_sx ls, map_opt label_of_sx cands with
+      | Some (c', r), Some ls', Some cands' =>
+          let s := run (init2 c' r) ls' in
+          L [sx_bool (all_enabled (init2 c' r) ls'); sx_list (fun l => sx_bool (enabled s l)) cands']
       | _, _, _ => bad_case
       end
   | _ => bad_case
